@@ -1,5 +1,5 @@
 From Coq Require Import List NArith.
-From Tink Require Import XBase Bytes AeadFrame Ctr EtM Polyval GcmSiv Cmac Xaes Envelope EnvelopeDek AeadKeyset.
+From Tink Require Import XBase Bytes AeadFrame Ctr EtM Polyval GcmSiv Cmac Xaes Envelope EnvelopeDek EnvelopeDekEtm AeadKeyset.
 Require Import ExtrOcamlBasic.
 Extraction "m.ml" xb_add xb_mul xb_div_eucl output_prefix
   aesgcm_enc aesgcm_dec chacha_enc chacha_dec chacha_subtle_enc chacha_subtle_dec
@@ -8,6 +8,6 @@ Extraction "m.ml" xb_add xb_mul xb_div_eucl output_prefix
   siv_enc siv_dec polyval_impl polyval_spec
   xaes_enc xaes_dec
   env_enc env_dec build_envelope parse_envelope dek_proto dek_key
-  dek_enc dek_dec dek_ivlen dek_tag
+  dek_enc dek_dec dek_ivlen dek_tag etm_dek_enc etm_dek_dec etm_dek_proto
   na_dec_len_only chacha_open_max chacha_tink_ct_max
   ks_dec.
